@@ -58,3 +58,22 @@ Example ex_cstep :
   cs_Hc (cstep canonG_nauty (Some (ex_G, ex_Hx)) (cstep canonG_nauty (Some (ex_G, ex_H)) cs_init)) = None /\
   cs_pairs (cstep canonG_nauty (Some (ex_G, ex_Hx)) cs_init) = Some [].
 Proof. vm_compute. repeat split. Qed.
+
+(** exactly when does CanonRSMI.canonicalise raise ValueError("node_map must be non-empty")?  When the two sides share no atom
+    map - in particular for every reaction without any map number, because expand_aam gives all atoms different fresh numbers
+    (C09_expand_sides_spec). *)
+Theorem canonicalise_fails_iff (G H Gc : mgraph) (order : list N) :
+  parsed G -> parsed H -> enumerates order G -> C09_Canon.relabelled_by (sigma_of order) G Gc ->
+  (canonicalise_with Gc H = None <-> ~ exists s, In s (node_ids G) /\ In s (node_ids H)).
+Proof.
+  intros (WG & AG & PG) (WH & AH & PH) (O1 & I1) R1. split.
+  - intros E Hs. destruct (C09_Canon.canonicalise_with_spec G H Gc order WG WH AG AH PG PH O1 I1 R1 Hs) as (Hc & E' & _). congruence.
+  - intros Hn. unfold canonicalise_with.
+    assert (P : aam_pairs Gc H = []).
+    { destruct (aam_pairs Gc H) as [|[a b] l] eqn:E; [reflexivity|]. exfalso. apply Hn. exists b.
+      assert (I : In (a, b) (aam_pairs Gc H)) by (rewrite E; left; reflexivity).
+      apply (C09_Canon.pairs_in G H Gc order WG WH AG AH PG PH R1) in I. tauto. }
+    rewrite P. reflexivity.
+Qed.
+Example ex_fails : canonicalise_with (canonG_nauty ex_G) ex_Hx = None /\ ~ exists s, In s (node_ids ex_G) /\ In s (node_ids ex_Hx).
+Proof. split; [vm_compute; reflexivity|]. intros (s & I1 & I2). simpl in I1, I2. intuition (subst; discriminate). Qed.
